@@ -487,10 +487,8 @@ func (p *Proxy) findBackendByDialog(msg *Message) (Backend, ServerTransport, err
 		return nil, nil, err
 	}
 
-	// no dialog for INVITE and SUBSCRIBE message because they initialize the dialog
-	if method == "INVITE" || method == "SUBSCRIBE" {
-		return nil, nil, fmt.Errorf("no dialog for request %s", method)
-	}
+	// the INVITE and SUBSCRIBE that initialize a dialog carry no To tag, so
+	// GetDialog fails for them; re-INVITE and refresh SUBSCRIBE have a dialog
 	dialog, err := msg.GetDialog()
 
 	if err != nil {
